@@ -54,6 +54,7 @@ type World struct {
 	stableMemo   map[string]bool
 	copierMemo   map[*ssa.Function]string
 	persistMemo  map[*types.Var]string
+	roundUpMemo  map[*ssa.Function]int64
 	copyKeyBusy  bool
 	reqBuildMemo *reqBuild
 	factMemo     map[*ssa.Function]*funcFacts
